@@ -4,8 +4,10 @@ CONSTANTS
   Fams = {"kw", "prop", "view", "att"}
   MaxLen = 10
   Mix = 10
-  Bases = {"bare", "info"}
+  Bases = {"bare", "info", "rich", "xmpkw"}
   DeepBases = {}
+  ShallowBases = {}
+  DeepFams = {"kw", "prop", "att"}
   Std = FALSE
   Emit = TRUE
 INVARIANTS TypeOK Isolated EmitCase
